@@ -11,14 +11,14 @@ namespace Generated.GoSet
 
 variable {α : Type} [DecidableEq α] [Inhabited α]
 
-/-- `func Make[T comparable](items ...T) Set[T]` (set.go:19) -/
+/-- `func Make[T comparable](items ...T) Set[T]` -/
 def Make (items : List α) : Go.M (Go.GMap α) := do
   let mut s : Go.GMap α := (Go.mapMake (List.length items))
   for item in items do
     s ← Go.mapSet s item
   return s
 
-/-- `func (s Set[T]) Slice() []T` (set.go:28) -/
+/-- `func (s Set[T]) Slice() []T` -/
 def Set.Slice (s : Go.GMap α) : Go.M (Go.Slice α) := do
   if ((Go.mapLen s) == 0) then
     return Go.sliceNil
@@ -29,7 +29,7 @@ def Set.Slice (s : Go.GMap α) : Go.M (Go.Slice α) := do
     i := i + 1
   return result
 
-/-- `func (s *Set[T]) Add(items ...T) bool` (set.go:43) -/
+/-- `func (s *Set[T]) Add(items ...T) bool` -/
 def Set.Add (s : Go.GMap α) (items : List α) : Go.M (Go.GMap α × Bool) := do
   let mut s := s
   if (Go.mapIsNil s) then
@@ -43,7 +43,7 @@ def Set.Add (s : Go.GMap α) (items : List α) : Go.M (Go.GMap α × Bool) := do
     s ← Go.mapSet s item
   return (s, added)
 
-/-- `func (s *Set[T]) AddSet(items Set[T]) bool` (set.go:62) -/
+/-- `func (s *Set[T]) AddSet(items Set[T]) bool` -/
 def Set.AddSet (s : Go.GMap α) (items : Go.GMap α) : Go.M (Go.GMap α × Bool) := do
   let mut s := s
   if (Go.mapIsNil s) then
@@ -57,7 +57,7 @@ def Set.AddSet (s : Go.GMap α) (items : Go.GMap α) : Go.M (Go.GMap α × Bool)
     s ← Go.mapSet s item
   return (s, added)
 
-/-- `func (s Set[T]) Remove(items ...T) bool` (set.go:80) -/
+/-- `func (s Set[T]) Remove(items ...T) bool` -/
 def Set.Remove (s : Go.GMap α) (items : List α) : Go.M (Go.GMap α × Bool) := do
   let mut s := s
   if ((Go.mapLen s) == 0) then
@@ -71,7 +71,7 @@ def Set.Remove (s : Go.GMap α) (items : List α) : Go.M (Go.GMap α × Bool) :=
     s := Go.mapDelete s item
   return (s, removed)
 
-/-- `func (s Set[T]) RemoveSet(items Set[T]) bool` (set.go:98) -/
+/-- `func (s Set[T]) RemoveSet(items Set[T]) bool` -/
 def Set.RemoveSet (s : Go.GMap α) (items : Go.GMap α) : Go.M (Go.GMap α × Bool) := do
   let mut s := s
   if ((Go.mapLen s) == 0) then
@@ -85,7 +85,7 @@ def Set.RemoveSet (s : Go.GMap α) (items : Go.GMap α) : Go.M (Go.GMap α × Bo
     s := Go.mapDelete s item
   return (s, removed)
 
-/-- `func (s Set[T]) Has(items ...T) bool` (set.go:116) -/
+/-- `func (s Set[T]) Has(items ...T) bool` -/
 def Set.Has (s : Go.GMap α) (items : List α) : Go.M (Bool) := do
   if ((Go.mapLen s) == 0) then
     return false
@@ -95,7 +95,7 @@ def Set.Has (s : Go.GMap α) (items : List α) : Go.M (Bool) := do
       return false
   return true
 
-/-- `func (s Set[T]) HasAny(items ...T) bool` (set.go:129) -/
+/-- `func (s Set[T]) HasAny(items ...T) bool` -/
 def Set.HasAny (s : Go.GMap α) (items : List α) : Go.M (Bool) := do
   if ((Go.mapLen s) == 0) then
     return false
